@@ -6,6 +6,7 @@ import (
 	"go/ast"
 	"go/constant"
 	"go/token"
+	"go/types"
 	"hash/crc32"
 	"sort"
 	"strings"
@@ -36,6 +37,7 @@ func checkC14(r *core.Run) {
 	c14Radix(r, p)
 	c14Path(r, p)
 	c14WipedNotParent(r, p, "R-C14-path")
+	c14PasswordLengthMeasured(r, p, "R-C14-path")
 }
 
 // c14FixedWidth: a private key is 32 bytes whatever its numeric value. big.Int.Bytes() drops leading
@@ -1142,4 +1144,64 @@ func c14ReachWithoutFreshStore(from, to *ssa.UnOp, cell ssa.Value, fresh func(*s
 		st = append(st, b.Succs...)
 	}
 	return false
+}
+
+// c14PasswordLengthMeasured: the seed password handed to key derivation is the bytes that were read, all of
+// them: the length used for the returned buffer arrives, on every way into the final copy, from a measurement
+// of the input on that way (len of what was read from stdin, the count returned by the file read or by the
+// terminal read).  A way on which it is still the variable's initial constant (an assignment that went to a
+// shadowing variable instead) yields an empty password whatever was typed: the same seed no longer gives the
+// same keys across the input channels.
+func c14PasswordLengthMeasured(r *core.Run, p *core.Program, rule string) {
+	fn := p.Func("wallet.getpass")
+	key := "password/length-measured"
+	if fn == nil {
+		r.Fail(rule, key, "-", "getpass not found")
+		return
+	}
+	n := 0
+	bad := ""
+	an.Instrs(fn, func(i ssa.Instruction) {
+		var length ssa.Value
+		switch x := i.(type) {
+		case *ssa.MakeSlice:
+			length = x.Len
+		case *ssa.Slice:
+			// pass[:n] of the local input buffer
+			if al, isAl := x.X.(*ssa.Alloc); isAl && x.High != nil {
+				if _, isArr := an.Deref(al.Type()).Underlying().(*types.Array); isArr {
+					length = x.High
+				}
+			}
+		}
+		if length == nil {
+			return
+		}
+		n++
+		seen := map[ssa.Value]bool{}
+		var leaves func(v ssa.Value, viaPhi bool)
+		leaves = func(v ssa.Value, viaPhi bool) {
+			if seen[v] {
+				return
+			}
+			seen[v] = true
+			switch x := v.(type) {
+			case *ssa.Phi:
+				for _, e := range x.Edges {
+					leaves(e, true)
+				}
+			case *ssa.BinOp:
+				leaves(x.X, viaPhi)
+				leaves(x.Y, viaPhi)
+			case *ssa.Convert:
+				leaves(x.X, viaPhi)
+			case *ssa.Const:
+				if viaPhi {
+					bad = fmt.Sprintf("on one way into the final copy the password length is the constant %s, not a count of what was read: the bytes read on that way are left out of the seed", x.Value)
+				}
+			}
+		}
+		leaves(length, false)
+	})
+	r.Check(n >= 1 && bad == "", rule, key, p.Pos(fn.Pos()), "the length of the returned password is measured from the input on every way", bad+map[bool]string{true: "", false: "getpass does not build the returned buffer"}[n >= 1])
 }
